@@ -351,6 +351,30 @@ func main() {
 				mr, same = hr, true
 			}
 		}
+		if !same && !v.hang {
+			// Last resort before giving up: the code under test may itself contain a source of randomness the
+			// simulator does not own (Go's randomised map iteration reached through a new code path, say). Then
+			// the same case fails in some fresh processes and not in others. Re-run it a few more times; if the
+			// violation shows again it is reported, and the report says that it does not replay exactly.
+			again := 0
+			classes := map[string]int{}
+			if rr != nil && rr.Violation != "" {
+				again++
+				classes[rr.Violation]++
+			}
+			const extra = 8
+			for k := 0; k < extra; k++ {
+				r2, _, e2 := replayOnce(wp(v, prop), bin, path, cfg.HangS)
+				if e2 == nil && r2 != nil && r2.Violation != "" {
+					again++
+					classes[r2.Violation]++
+				}
+			}
+			if again > 0 {
+				mr.Detail = fmt.Sprintf("[does NOT replay exactly: the minimised case violated the property in %d of %d fresh-process replays (classes seen: %v; the sweep saw %s); the code under test has a source of nondeterminism the simulator does not own]\n", again, extra+1, classes, mr.Violation) + mr.Detail
+				same = true
+			}
+		}
 		if !same {
 			got := "hang"
 			if rr != nil {
